@@ -118,7 +118,7 @@ def finalize(agg, tier):
                 "the solve computed at least two trial steps; distinct by spec seed",
         "floors": {"results_checked": 500, "vetoed_trials": 50, "rejected_trials": 200, "paths_checked": 300,
                    "effective_accepts": 3000, "runs_with_caller_reusing_start_buffers": 100,
-                   "runs_with_scripted_step_sizes": 60, "runs_with_absorbed_model_time": 15},
+                   "runs_with_scripted_step_sizes": 60, "runs_with_absorbed_model_time": 10},
         "assumptions": ["effective acceptance = controller accepted and (no penalty decision or penalty accepted), taken "
                         "from the penalty proxy and object identities, never from value equality"],
     }
